@@ -4,6 +4,8 @@ import ConfModel.Spec.RawBody
 import ConfModel.Model.Convert
 import ConfModel.Model.Base64
 import ConfModel.Model.RawMerge
+import ConfModel.Model.RawSeq
+import ConfModel.Spec.RawSeq
 namespace ConfModel.Driver.C17
 open Lean ConfModel.Driver ConfModel.RawBody ConfModel.RawBodySpec
 
@@ -83,6 +85,29 @@ def bodySpec (compress : Compress) (body : Json) : Option Bytes :=
     let items := parseItems (field body "stream")
     if items.all (itemOk compress) then some (streamBytes compress items) else none
   | _ => some []
+
+
+/-! ### histories and the status range -/
+
+open ConfModel.RawSeq ConfModel.RawSeqSpec in
+def parseBody (body : Json) : RawSeq.Body :=
+  match str (field body "kind") with
+  | "unary" => .unary (parsePayload (field body "unary"))
+  | "stream" => .stream (parseItems (field body "stream"))
+  | _ => .unary none
+
+def optNat (j : Json) : Option Nat := if isNull j then none else some (nat j)
+
+def parseSeqStep (j : Json) : RawSeq.Step :=
+  if bool (field j "unary") then ⟨.unary (parsePayload (field j "msg")), optNat (field j "budget")⟩
+  else ⟨.stream (parseItems (field j "items")), optNat (field j "budget")⟩
+
+def obsJson (o : RawSeq.Obs) : Json := Json.mkObj [("out", hex o.out), ("err", o.err)]
+
+def protoOf (s : String) : RawSeq.Proto := if s == "h2c" then .h2 else .h1
+
+/-- index of the first `false` -/
+def firstBad (l : List Bool) : Nat := (l.takeWhile id).length
 
 def panicked (impl : Json) : Bool := !(isNull (field impl "panic"))
 
@@ -285,6 +310,105 @@ def handle : Handler := fun op inp impl =>
             toString (bad.map fun k => s!"{k}: given {givenFor given k}, on the wire {valuesOf hdrs k}, set by the stack {valuesOf base k}")
         else if !trlOk then "a given trailer does not carry exactly the given values"
         else if !noForeign then "a header that is neither given nor the stack's reached the wire"
+        else "body is not the given body" }
+  | "seq" =>
+    let rows := parseOracle (field impl "oracle")
+    let compress := compressOf rows
+    let steps := (arr (field inp "steps")).map parseSeqStep
+    let obs : List RawSeq.Obs := (arr (field impl "steps")).map fun o => ⟨unhex (str (field o "out")), bool (field o "err")⟩
+    -- the model: the history threaded through the scratch buffer
+    let m := (RawSeq.runHist compress [] steps).2
+    -- the property: every write shows its own specified bytes (cut where its destination failed)
+    let oks := (steps.zip obs).map fun p => RawSeqSpec.stepHolds compress p.1 p.2
+    let holds := obs.length == steps.length && oks.all id && rows.all (fun r => r.enc.isNone || r.rt)
+    { agree := obs == m, holds := holds,
+      nontrivial := steps.length > 1 && steps.any (fun st => st.budget.isSome),
+      model := toJson (m.map obsJson),
+      cls := if steps.any (fun st => st.budget.isSome) then "with-failed-writes" else "all-sound",
+      why := if holds then "" else
+        s!"write #{firstBad oks + 1} of the history does not show its own specified bytes (cut where its destination failed)" }
+  | "respseq" =>
+    let rows := parseOracle (field impl "oracle")
+    let compress := compressOf rows
+    let stepsJ := arr (field inp "steps")
+    let seen := arr (field impl "steps")
+    let judge := (stepsJ.zip seen).map fun p =>
+      let st := p.1
+      let o := p.2
+      let err := str (field o "err")
+      let status := nat (field o "status")
+      let info := natList (field o "info")
+      let body := unhex (str (field o "body"))
+      let c := nat (field st "status")
+      let head := str (field st "method") == "HEAD"
+      let clen := optNat (field st "clen")
+      let b := parseBody (field st "body")
+      let mBody := (RawSeq.obsOf compress ⟨b, none⟩).out
+      let law := RawSeq.statusOnWire (protoOf (str (field st "proto"))) c
+      let statusOk := RawSeqSpec.statusHonoured c info status
+      -- a body the peer cannot get in full: HEAD, a bodyless status, a listed Content-Length that is
+      -- not the body's length - what arrives is a (possibly empty) beginning of the specified body
+      let partialOnly := head || RawSeqSpec.bodyless status || RawSeqSpec.bodyless c || (match clen with | some n => n != mBody.length | none => false)
+      let holds :=
+        if partialOnly then err == "do" || (statusOk && body.isPrefixOf mBody)
+        else err == "" && statusOk && RawSeqSpec.stepBytesHold compress ⟨b, none⟩ body
+      let agree :=
+        if partialOnly then holds && (match law with
+          | some w => err == "do" || (status == w.final && (w.bodyAllowed && !head || body.isEmpty))
+          | none => err == "do")
+        else (match law with
+          | some w => err == "" && status == w.final && info == w.info && body == mBody
+          | none => err == "do")
+      (agree, holds)
+    let holds := seen.length == stepsJ.length && (judge.map (·.2)).all id
+    { agree := seen.length == stepsJ.length && (judge.map (·.1)).all id, holds := holds, nontrivial := stepsJ.length > 1,
+      cls := "refused-then-sent", model := Json.null,
+      why := if holds then "" else
+        s!"response #{firstBad (judge.map (·.2)) + 1} of the sequence does not carry its own specified status and body" }
+  | "reqseq" =>
+    let rows := parseOracle (field impl "oracle")
+    let compress := compressOf rows
+    let stepsJ := arr (field inp "steps")
+    let seen := arr (field impl "steps")
+    let steps : List RawSeq.Step := stepsJ.map fun st => ⟨parseBody (field st "body"), optNat (field st "close")⟩
+    let m := (RawSeq.runHist compress [] steps).2
+    let bodies := seen.map fun o => unhex (str (field o "body"))
+    let oks := (steps.zip seen).map fun p =>
+      str (field p.2 "err") == "" && RawSeqSpec.stepBytesHold compress p.1 (unhex (str (field p.2 "body")))
+    let holds := seen.length == stepsJ.length && oks.all id
+    { agree := bodies == m.map (·.out) && seen.all (fun o => str (field o "err") == ""), holds := holds,
+      nontrivial := steps.any (fun st => st.budget.isSome), cls := "closed-pipes",
+      model := toJson (m.map fun o => hex o.out),
+      why := if holds then "" else
+        s!"request #{firstBad oks + 1} of the sequence does not carry its own specified body (cut where the transport closed the pipe)" }
+  | "status" =>
+    let rows := parseOracle (field impl "oracle")
+    let compress := compressOf rows
+    let c := nat (field inp "status")
+    let err := str (field impl "err")
+    let status := nat (field impl "status")
+    let info := natList (field impl "info")
+    let body := unhex (str (field impl "body"))
+    let b := parseBody (field inp "body")
+    let mBody := (RawSeq.obsOf compress ⟨b, none⟩).out
+    let law := RawSeq.statusOnWire (protoOf (str (field inp "proto"))) c
+    let transmittable := c == 0 || (100 ≤ c && c ≤ 999)
+    let statusOk := RawSeqSpec.statusHonoured c info status
+    let bodyOk := RawSeqSpec.bodyless status || RawSeqSpec.stepBytesHold compress ⟨b, none⟩ body
+    -- a status HTTP cannot carry leaves nothing to demand
+    let holds := !transmittable || (err == "" && statusOk && bodyOk)
+    { agree := (match law with
+        | some w => err == "" && status == w.final && info == w.info && body == (if w.bodyAllowed then mBody else [])
+        | none => err == "do"),
+      holds := holds, nontrivial := transmittable && c != 0 && c != 200,
+      cls := str (field inp "proto") ++ ":" ++
+        (if c == 0 then "unset" else if c < 100 then "below" else if c ≤ 199 then "1xx" else if c ≤ 599 then "2xx-5xx" else if c ≤ 999 then "6xx-9xx" else "above"),
+      model := (match law with
+        | some w => Json.mkObj [("info", toJson w.info), ("status", w.final), ("body", hex (if w.bodyAllowed then mBody else []))]
+        | none => Json.str "aborted"),
+      why := if holds then "" else
+        if err != "" then s!"raw response with status {c} could not be read"
+        else if !statusOk then s!"raw response prescribes status {c}, the wire carries {status} (informational: {info})"
         else "body is not the given body" }
   | _ => bad ("C17: unknown op " ++ op)
 
